@@ -12,7 +12,7 @@ EXTENDS SmtpServer, Json
 Trace == ndJsonDeserialize("trace.ndjson")
 
 TraceAlphabet == {"greet", "mail", "rcpt", "data", "bdat", "simple", "bad", "quit", "long",
-                  "panic", "auth", "starttls"}
+                  "panic", "auth", "starttls", "cut"}
 
 VARIABLE l     \* index of the next event to consume
 
